@@ -310,6 +310,11 @@ func (p *parser) processDeclarations(rules []css_ast.Rule, composesContext *comp
 					}
 					break
 				}
+
+				// If this couldn't be lowered, browsers that don't support "inset" will
+				// ignore it. Don't let it remove earlier "top", "right", "bottom", and
+				// "left" declarations, since those still apply in these browsers.
+				break
 			}
 			if p.options.minifySyntax {
 				inset.mangleSides(rewrittenRules, decl, p.options.minifyWhitespace)
@@ -523,8 +528,56 @@ func (p *parser) insertPrefixedDeclaration(rules []css_ast.Rule, prefix string, 
 	return rules
 }
 
+// This is like "expandTokenQuad" but it also accepts everything else that is
+// known to be a single value for one side: the "auto" keyword, a math function
+// such as "calc()", and a CSS-wide keyword on its own. A "var()" is not
+// accepted because it may expand to more than one value.
+func expandInsetQuad(tokens []css_ast.Token) (result [4]css_ast.Token, ok bool) {
+	n := len(tokens)
+	if n < 1 || n > 4 {
+		return
+	}
+	for _, t := range tokens {
+		switch t.Kind {
+		case css_lexer.TIdent:
+			switch strings.ToLower(t.Text) {
+			case "auto":
+			case "inherit", "initial", "unset", "revert", "revert-layer":
+				if n != 1 {
+					return
+				}
+			default:
+				return
+			}
+		case css_lexer.TFunction:
+			if strings.EqualFold(t.Text, "var") {
+				return
+			}
+		default:
+			if !t.Kind.IsNumeric() {
+				return
+			}
+		}
+	}
+	result[0] = tokens[0]
+	result[1] = result[0]
+	if n > 1 {
+		result[1] = tokens[1]
+	}
+	result[2] = result[0]
+	if n > 2 {
+		result[2] = tokens[2]
+	}
+	result[3] = result[1]
+	if n > 3 {
+		result[3] = tokens[3]
+	}
+	ok = true
+	return
+}
+
 func (p *parser) lowerInset(loc logger.Loc, decl *css_ast.RDeclaration) ([]css_ast.Rule, bool) {
-	if tokens, ok := expandTokenQuad(decl.Value, ""); ok {
+	if tokens, ok := expandInsetQuad(decl.Value); ok {
 		mask := ^css_ast.WhitespaceAfter
 		if p.options.minifyWhitespace {
 			mask = 0
